@@ -121,6 +121,32 @@ Theorem C20_expire_req_clean_eq : forall cfg s r,
 Proof. exact NoPanic.expire_req_clean_eq. Qed.
 Print Assumptions C20_expire_req_clean_eq.
 
+(* EndBlock with error propagation (NoPanic.expire_req_strict, expire_one_strict,
+   end_block_strict, handle_strict: every lookup, slash and refund of the expiry loop bound in
+   the Res monad instead of dropped) returns Ok of exactly the model's EndBlock *)
+Theorem C20_end_block_strict : forall cfg s dt,
+  wf_cfg cfg -> Inv cfg s -> height s < HEIGHT_BOUND ->
+  NoPanic.end_block_strict cfg s dt = Ok (end_block cfg s dt).
+Proof. exact NoPanic.C20_end_block_strict. Qed.
+Print Assumptions C20_end_block_strict.
+
+Theorem C20_handle_strict : forall cfg s o,
+  wf_cfg cfg -> Inv cfg s -> wf_op s o -> NoPanic.handle_strict cfg s o = handle cfg s o.
+Proof. exact NoPanic.C20_handle_strict. Qed.
+Print Assumptions C20_handle_strict.
+
+Theorem C20_no_panic_strict : forall cfg s o,
+  wf_cfg cfg -> Reach cfg s -> wf_op s o -> NoPanic.k1_op cfg s o ->
+  NoPanic.handle_strict cfg s o <> Panic.
+Proof. exact NoPanic.C20_no_panic_strict. Qed.
+Print Assumptions C20_no_panic_strict.
+
+Theorem C20_end_block_never_fails : forall cfg s dt,
+  wf_cfg cfg -> Reach cfg s -> wf_op s (OEndBlock dt) ->
+  NoPanic.handle_strict cfg s (OEndBlock dt) = Ok (end_block cfg s dt).
+Proof. exact NoPanic.C20_end_block_never_fails. Qed.
+Print Assumptions C20_end_block_never_fails.
+
 (* ---- known finding K1: the exclusion is necessary ---- *)
 
 Theorem C20_K1_bind_refuted :
@@ -175,3 +201,9 @@ Theorem C20_due_sorted : forall (q : list (Z * CtxId)) h,
   Sorted (fun a b => ctxid_leb a b = true) (due q h).
 Proof. exact NoPanic.C20_due_sorted. Qed.
 Print Assumptions C20_due_sorted.
+
+(* the processing order depends only on which entries are queued *)
+Theorem C20_due_canonical : forall (q q' : list (Z * CtxId)) h,
+  Permutation q q' -> due q h = due q' h.
+Proof. exact NoPanic.C20_due_canonical. Qed.
+Print Assumptions C20_due_canonical.
